@@ -32,6 +32,14 @@ type ReplayFile struct {
 	SeedOnly  bool           `json:"seed_only,omitempty"` // the tape is the PRNG stream of run_seed (not minimised)
 	Repo      string         `json:"repo_state,omitempty"`
 	Original  *zsim.TapeData `json:"original_tape,omitempty"`
+	// the worker process that met the violation had executed these runs before
+	// (run indices of the same base seed); WorkerFrom/WorkerStride let the
+	// driver compute them. Prefix is set by the driver when the run does not
+	// reproduce on its own: state of the code under test that outlives a run
+	// (a package-level cache, a table filled on demand) is part of the history.
+	WorkerFrom   int64   `json:"worker_from"`
+	WorkerStride int64   `json:"worker_stride,omitempty"`
+	Prefix       []int64 `json:"earlier_runs_of_the_process,omitempty"`
 }
 
 type WorkerOut struct {
@@ -219,6 +227,7 @@ func TestWorker(t *testing.T) {
 					rf.TapeLen = [3]int{before, len(fr.Tape.Gen) + len(fr.Tape.Sched) + len(fr.Tape.Fault), attempts}
 				}
 			}
+			rf.WorkerFrom, rf.WorkerStride = from, stride
 			out.Violations = append(out.Violations, rf)
 			if res.Abandoned > 0 || len(out.Violations) >= maxViol || zsim.RaceBuild {
 				out.Dirty = res.Abandoned > 0
@@ -263,6 +272,10 @@ func replay(t *testing.T, p *Prop, path, tier string) {
 				fmt.Println("CASEX", l)
 			}
 		}()
+	}
+	for _, idx := range rf.Prefix {
+		// the runs the worker process had executed before this one
+		ExecOne(t, p, zsim.NewTape(RunSeed(rf.BaseSeed, rf.Property, idx)), tier)
 	}
 	res := ExecOne(t, p, tape, tier)
 	viol := res.Viol
